@@ -33,7 +33,6 @@ type ccRun struct {
 	Out      string `json:"out"` // ok | panic | hang | leak
 	Detail   string `json:"detail"`
 	Sections []int  `json:"sections"`
-	Present  bool   `json:"present"` // the ASN's counters exist afterwards
 }
 
 type ccObs struct {
